@@ -434,6 +434,17 @@ theorem brief_contents (s : StateModel) (x : TextExtra) (ls : List TLine) (h : p
   · rw [List.filterMap_append, hpre.filterMap_eq_nil _ unloadedOf_plain, hreqk.2.1]; rfl
   · rw [List.filterMap_append, hpre.filterMap_eq_nil _ headerOf_plain, hreqk.2.2]; rfl
 
+/-! ## 3b. lines and characters -/
+
+/-- **lines_of_report** — the structure theorems below speak about the LINES of the model
+    (`printLines`); `printText` writes each followed by `\n`. When no line contains a newline (no
+    printed name does — the condition under which the engine's line-based oracle runs) the
+    characters split at `\n` are exactly those lines. -/
+theorem lines_of_report (s : StateModel) (x : TextExtra) (brief : Bool) (ls : List TLine)
+    (h : printLines s x brief = .ok ls) (tame : ∀ l ∈ ls, '\n' ∉ l.text) :
+    ∃ cs, printText s x brief = .ok cs ∧ splitLines cs [] = ls.map (·.text) :=
+  ⟨renderLines ls, by simp only [printText, h, obind], splitLines_render ls tame⟩
+
 /-! ## 4. "number of frame lines per thread = frames + inline frames" -/
 
 /-- **frame_lines_count** — in the block `CallStack::print` writes for a thread the numbered lines
@@ -450,6 +461,26 @@ theorem frame_lines_count (t : ThreadM) (x : ThreadX) (ls : List TLine) (h : sta
   induction t.frames with
   | nil => rfl
   | cons f rest ih => simp only [List.map_cons, List.sum_cons, List.length_cons, ih]; omega
+
+/-- **frame_lines_count_chars** — the same count read off the CHARACTERS, with the very test the
+    engine's oracle applies to the lines of the real output (`isFrameLine`: a space and one digit,
+    or at least two digits, followed by two spaces): in a call-stack block exactly the numbered
+    frame lines look like numbered frame lines (register lines, `Found by:` lines, argument lines,
+    `<no frames>` and blank lines do not), so their number is frames + inline frames. -/
+theorem frame_lines_count_chars (t : ThreadM) (x : ThreadX) (ls : List TLine) (h : stackLines t x = .ok ls) :
+    (∀ l ∈ ls, isFrameLine l.text = (frameOf l).isSome) ∧
+    (ls.filter fun l => isFrameLine l.text).length = t.frames.length + (t.frames.map (·.inlines.length)).sum := by
+  have hc := stackLines_chars t x ls h
+  refine ⟨hc, ?_⟩
+  have e : (ls.filter fun l => isFrameLine l.text) = ls.filter fun l => (frameOf l).isSome :=
+    List.filter_congr (fun l hl => hc l hl)
+  rw [e, ← filterMap_length_eq_filter, (frame_lines_count t x ls h).1, List.length_range]
+
+/-- the oracle's test on concrete lines -/
+example : isFrameLine " 0  app.exe!main [a.c : 7 + 0x4]".toList = true ∧ isFrameLine "12  0x1000".toList = true ∧
+    isFrameLine "    Found by: call frame info".toList = false ∧ isFrameLine "     rax = 0x0000000000000001".toList = false ∧
+    isFrameLine "<no frames>".toList = false ∧ isFrameLine " 12  x".toList = false ∧ isFrameLine "1  x".toList = false := by
+  decide
 
 /-- a thread without frames gets the line `<no frames>` and no numbered line -/
 example : stackLines ⟨[], 8, none, none⟩ ThreadX.dflt = .ok [pl "<no frames>"] := rfl
